@@ -21,6 +21,8 @@ What is compared on the implementation (only what the statement fixes):
 """
 import copy
 import random
+import shutil
+import tempfile
 
 from .. import core
 from .. import varlib as vl
@@ -238,6 +240,15 @@ def demo_defect_models(ctx):
 
 
 def run(ctx):
+    # private scratch directory: a concurrent invocation of the same check wipes build/<ID>
+    ctx.workdir = tempfile.mkdtemp(prefix=ctx.pid + "_", dir=core.BUILD)
+    try:
+        return _run(ctx)
+    finally:
+        shutil.rmtree(ctx.workdir, ignore_errors=True)
+
+
+def _run(ctx):
     tag = "thorough" if ctx.thorough else "quick"
     ctx.assume("variables of a chain have pairwise distinct non-empty types; attribute names differ from "
                "name/type/compose/combine/dim and from type names")
